@@ -209,7 +209,9 @@ begin
  mj4:           await shut = "free"; wkClosed := TRUE;
  mj5l:          await mgmt = "free"; mgmt := "M";   \* final join loop, holding the management lock
  mj5:           while procs # {} do
-                   if JoinWatches then
+                   if JoinWatches /\ brokenF then
+                      goto mj5k;          \* workers registered after the pool broke were never asked to stop: killed
+                   elsif JoinWatches then
                       \* wait(sentinels): join the workers as they exit; one that did not exit cleanly may have left the
                       \* queue locks dirty: the others are killed (there is no pending work here)
                       await \E p \in procs : Dead(p);
@@ -1254,20 +1256,23 @@ mj5l == /\ pc["M"] = "mj5l"
 
 mj5 == /\ pc["M"] = "mj5"
        /\ IF procs # {}
-             THEN /\ IF JoinWatches
-                        THEN /\ \E p \in procs : Dead(p)
-                             /\ \E p \in {q \in procs : Dead(q)}:
-                                  /\ procs' = procs \ {p}
-                                  /\ IF alive[p] = "dead"
-                                        THEN /\ pc' = [pc EXCEPT !["M"] = "mj5k"]
-                                        ELSE /\ pc' = [pc EXCEPT !["M"] = "mj5"]
-                        ELSE /\ \E p \in procs:
-                                  /\ Dead(p) \/ (\A q \in procs : ~Dead(q))
-                                  /\ IF ~Dead(p)
-                                        THEN /\ FALSE
-                                             /\ procs' = procs
-                                        ELSE /\ procs' = procs \ {p}
-                             /\ pc' = [pc EXCEPT !["M"] = "mj5"]
+             THEN /\ IF JoinWatches /\ brokenF
+                        THEN /\ pc' = [pc EXCEPT !["M"] = "mj5k"]
+                             /\ procs' = procs
+                        ELSE /\ IF JoinWatches
+                                   THEN /\ \E p \in procs : Dead(p)
+                                        /\ \E p \in {q \in procs : Dead(q)}:
+                                             /\ procs' = procs \ {p}
+                                             /\ IF alive[p] = "dead"
+                                                   THEN /\ pc' = [pc EXCEPT !["M"] = "mj5k"]
+                                                   ELSE /\ pc' = [pc EXCEPT !["M"] = "mj5"]
+                                   ELSE /\ \E p \in procs:
+                                             /\ Dead(p) \/ (\A q \in procs : ~Dead(q))
+                                             /\ IF ~Dead(p)
+                                                   THEN /\ FALSE
+                                                        /\ procs' = procs
+                                                   ELSE /\ procs' = procs \ {p}
+                                        /\ pc' = [pc EXCEPT !["M"] = "mj5"]
              ELSE /\ pc' = [pc EXCEPT !["M"] = "mj6"]
                   /\ procs' = procs
        /\ UNCHANGED << shutdownF, brokenF, killF, execAlive, refsDropped, 
